@@ -79,7 +79,12 @@ func c12Regexp(r *rand.Rand) string {
 		`^//W$`, `^// ?W`, `W$`, `\bW\b`, `\A/\* ?W ?\*/\z`, `(?m)^W$`, `^W|V$`, `\BW`, `W\s*\*/$`, `(?m)^//W|V$`,
 	}
 	s := t[r.Intn(len(t))]
-	return strings.NewReplacer("W", w, "V", v).Replace(s)
+	s = strings.NewReplacer("W", w, "V", v).Replace(s)
+	if r.Intn(3) == 0 {
+		// the other spelling of a named group, (?<name>re), accepted by regexp/syntax since Go 1.22
+		s = strings.ReplaceAll(s, "(?P<", "(?<")
+	}
+	return s
 }
 
 func c12Names(re *regexp.Regexp) []string {
